@@ -279,6 +279,18 @@ def generate(rng, tier):
         focus = None
         if scenario:
             extra, focus = _layer_scenario(rng, c)
+            if rng.random() < 0.5:
+                # ... and changes of the components that have steps of their own (data files, images, kerning, features)
+                for _ in range(rng.randint(1, 2)):
+                    r = rng.random()
+                    if r < 0.4:
+                        extra.append(["dat", rng.choice(fg.DATA_NAMES), rng.randint(7, 11)])
+                    elif r < 0.7:
+                        extra.append(["img", rng.choice(fg.IMAGE_NAMES), rng.randint(7, 11)])
+                    elif r < 0.85:
+                        extra.append(["kern", "%s|%s" % (rng.choice(fg.GLYPH_NAMES[:4]), rng.choice(fg.GLYPH_NAMES[:4])), rng.choice([-33, 41])])
+                    else:
+                        extra.append(["feat", rng.choice(["# h\n", "# i\n"])])
             c["ops"] = ops[:-1] + extra + [ops[-1]]
         # real content faults: each is tried in a run of its own
         c["cfaults"] = _gen_cfaults(rng, c, focus) if rng.random() < 0.8 else []
